@@ -1,6 +1,6 @@
 (* Properties_C04.v — C04 (library part): every hunk is applied or rejected, never lost, duplicated or
    half-applied; the reject count is the number of rejected hunks. *)
-From PatchV Require Import Base Lines Hunk Locator Options Applier Spec_Locate Spec_Apply Proofs_Apply.
+From PatchV Require Import Base Lines Hunk Locator Options Applier Parser World Driver Spec_Locate Spec_Apply Proofs_Apply Proofs_Progress Proofs_Predict.
 
 (* The output of apply_patch is the replay of a verdict list over the hunks it was given (as left in the
    patch: reversed when the patch was reversed, start lines shifted for rejects — replay only reads the
@@ -44,3 +44,12 @@ Example replay_nonvacuous :
   | Throw _ => False
   end.
 Proof. vm_compute. repeat split; reflexivity. Qed.
+
+(* through the driver: once the hunks of a section have been applied (result ar: r_failed ar is the number of rejected
+   verdicts by apply_patch_replay), the failure flag of the run — exit status 1 instead of 0 — is set exactly when it was set
+   before, or some hunk was rejected / the patch skipped, or a deletion left content behind ([leftover]) *)
+Theorem section_failure_flag : forall o st ftp outf op op1 needed ar s2,
+  Post (section_tail o st ftp outf op op1 needed ar s2)
+       (fun y => had_failure (fst y) = had_failure st || negb (Nat.eqb (r_failed ar) 0) || leftover o ar).
+Proof. exact Proofs_Predict.section_failure_flag. Qed.
+Print Assumptions section_failure_flag.
